@@ -211,7 +211,9 @@ def _import_kernel(res, opname, with_symbol):
             e.check(imported and signame == 'ContextSwitch', f'{opname}: a module body is started only for a freshly compiled module and the importer yields')
             e.check(ip1 == ip0 - 1, f'{opname}: the importer is rewound to retry this very instruction once the module has run', {'ip0': str(ip0), 'ip1': str(ip1)})
             e.check(sp1 == sp0, f'{opname}: nothing is pushed before the module has run')
-            e.check('sleep' in names and 'queue_push' in names, f'{opname}: the importer sleeps and the module fiber is queued')
+            # parked = it stops running and is not queued itself; whether it is marked pending or blocked is the scheduler's
+            # business (who may resume it: C17.K4)
+            e.check(('sleep' in names or 'block' in names) and 'queue_push' in names, f'{opname}: the importer is parked and the module fiber is queued')
             cf = [x for x in ev if x[0] == 'create_fiber'][0]
             e.check(isinstance(cf[2], EnumV) and cf[2].tag == 1, f'{opname}: the module fiber has the importer as its parent (the importer continues only when it completes)')
             e.check(len(after) == len(before), f'{opname}: a module that has not run yet is not entered into the cache')
